@@ -12,6 +12,9 @@ mod prog;
 mod c20;
 mod c05;
 mod c07;
+mod c08;
+mod c12;
+mod c13;
 mod rng;
 
 use std::collections::HashMap;
@@ -64,6 +67,9 @@ fn main() {
         "gadgets" => c20::main(&args),
         "transcript" => c05::main(&args),
         "fri" => c07::main(&args),
+        "mmcs" => c08::main(&args),
+        "decomp" => c12::main(&args),
+        "c13" => c13::main(&args),
         _ => {
             eprintln!("unknown subcommand {cmd}");
             std::process::exit(2);
